@@ -341,7 +341,12 @@ pub fn judge_child(o: &Outcome, argv: &[String], case: &str, trace_len: usize) -
             let _ = e;
             return None;
         }
-        Status::Signal(s) => return mk("no-abort", "exit status", format!("killed by signal {s}; stderr={}", short(&err, 300))),
+        Status::Signal(s) => {
+            // keep the line that says why (e.g. "has overflowed its stack") even behind a long log prefix
+            let why: Vec<&str> = err.lines().filter(|l| l.contains("overflowed its stack") || l.contains("memory allocation") || l.contains("fatal runtime error")).collect();
+            let why = why.join(" / ");
+            return mk("no-abort", "exit status", format!("killed by signal {s}; {why}; stderr={}", short(&err, 300)));
+        }
         Status::Exit(101) => return mk("no-panic", "no panic", format!("exit 101; stderr={}", short(&panic_excerpt(&err), 400))),
         Status::Exit(_) => {}
     }
@@ -430,6 +435,7 @@ fn make_call(rd: &RunDir, cmd: &Cmd, repo: &Path, sim_now: i64, case_dir: &str) 
         path: None,
         rm_cwd: false,
         stdout: crate::proc::Stdout::Capture,
+        stderr: crate::proc::Stdout::Capture,
     };
     match cmd.cwd.as_str() {
         "deleted" => {
@@ -571,11 +577,24 @@ impl<'a> Runner<'a> {
             return;
         }
         let has_v = cmd.argv.iter().any(|a| a == "-v" || a == "--verbose");
+        let e = |k: &str, v: &str| vec![(k.to_string(), v.to_string())];
         let variants: Vec<(&str, Vec<(String, String)>, Vec<&str>)> = vec![
-            ("rust_log", vec![("RUST_LOG".to_string(), "trace".to_string())], vec![]),
+            ("rust_log", e("RUST_LOG", "trace"), vec![]),
             ("verbose", vec![], if has_v { vec![] } else { vec!["-v"] }),
+            // logging switched off or pointed elsewhere: a failure must still carry its diagnostic
+            ("log_off", e("RUST_LOG", "off"), vec![]),
+            ("force_off", e("ZERV_FORCE_RUST_LOG_OFF", "1"), vec![]),
+            ("log_other_module", e("RUST_LOG", "some_other_crate=debug"), vec![]),
+            ("log_invalid_filter", e("RUST_LOG", "zerv=notalevel,,==,[{"), vec![]),
         ];
-        for (name, env, front) in variants {
+        // the two loud variants always; of the four quiet ones all for a fault-free git command (and
+        // in the thorough tier / a replay), otherwise one chosen by the case identity
+        let all_quiet = self.ctx.tier == Tier::Thorough || self.sc.only.is_some() || (case.ends_with(":base") && self.sc.mode != "argv");
+        let chosen = (crate::rng::fnv(case) ^ self.sc.sample_seed) % 4;
+        for (vi, (name, env, front)) in variants.into_iter().enumerate() {
+            if vi >= 2 && !all_quiet && (vi as u64 - 2) != chosen {
+                continue;
+            }
             let c2 = format!("{case}~{name}");
             let (o, _) = self.child(cmd, repo, &c2, plan, None, &env, &front);
             self.stats.bump("verbosity_identity_checks");
@@ -923,6 +942,43 @@ pub fn execute(ctx: &Ctx, scv: &serde_json::Value, rd: &RunDir, stats: &mut Stat
                     // stdout is lost by construction: only the no-panic / no-abort / liveness part applies
                     let mut o2 = o.clone();
                     o2.stdout.clear();
+                    if let Some(v) = judge_child(&o2, &c2.argv, &case, 0) {
+                        if v.clause == "no-panic" || v.clause == "no-abort" || v.clause == "liveness" {
+                            rn.viol.push(v);
+                        }
+                    }
+                }
+                // stderr faults: the diagnostic channel itself is broken (closed reader, full device),
+                // alone and together with a broken stdout, on a failing and on a verbose command
+                for (name, so, se, extra) in [
+                    ("stderr-full-failing", crate::proc::Stdout::Capture, crate::proc::Stdout::DevFull, vec!["--source", "nope"]),
+                    ("stderr-closed-failing", crate::proc::Stdout::Capture, crate::proc::Stdout::ClosedPipe, vec!["--source", "nope"]),
+                    ("stderr-full-verbose", crate::proc::Stdout::Capture, crate::proc::Stdout::DevFull, vec!["-v"]),
+                    ("stderr-closed-verbose", crate::proc::Stdout::Capture, crate::proc::Stdout::ClosedPipe, vec!["-v"]),
+                    ("both-full", crate::proc::Stdout::DevFull, crate::proc::Stdout::DevFull, vec![]),
+                    ("both-closed-verbose", crate::proc::Stdout::ClosedPipe, crate::proc::Stdout::ClosedPipe, vec!["-v"]),
+                    ("stderr-full-help", crate::proc::Stdout::Capture, crate::proc::Stdout::DevFull, vec!["--help"]),
+                ] {
+                    let case = format!("c{ci}:stderr:{name}");
+                    if !rn.wanted(&case) {
+                        continue;
+                    }
+                    let mut c2 = cmd.clone();
+                    c2.argv.extend(extra.iter().map(|s| s.to_string()));
+                    rn.rd.set_plan(&format!("budget {STEP_BUDGET}\n"));
+                    rn.rd.reset_trace();
+                    let mut call = make_call(rn.rd, &c2, &repo, sc.sim_now, "stderr");
+                    call.stdout = so;
+                    call.stderr = se;
+                    let o = run_zerv(ctx, rd, &call, rn.stats);
+                    rn.stats.bump("children");
+                    rn.stats.bump(&format!("fault.stderr.{name}"));
+                    rn.stats.distinct_key(&format!("stderr|{name}|{zsub}|{}", o.status_str()));
+                    rn.stats.event(format!("case {case} argv={:?} -> {}", c2.argv, o.status_str()));
+                    // stderr is lost by construction: exit 101 / a signal / a hang are what remains observable
+                    let mut o2 = o.clone();
+                    o2.stdout.clear();
+                    o2.stderr = b"(stderr not observable in this case)".to_vec();
                     if let Some(v) = judge_child(&o2, &c2.argv, &case, 0) {
                         if v.clause == "no-panic" || v.clause == "no-abort" || v.clause == "liveness" {
                             rn.viol.push(v);
